@@ -945,7 +945,7 @@ fn families() -> Vec<Scenario> {
     // 20: automatic recovery after the auto-retry delay, with a revocation arriving while idle
     v.push(fam(20, 1, (2, 3, 1), vec![(K_REG, 0, R_GOOD), (K_MODE, 0, A_RESET), (K_REV, 0, 0), (K_SETTLE, 0, 0), (K_REV, 1, 0), (K_MODE, 0, A_ACCEPT), (K_WAKE, 0, 0), (K_REV, 2, 0), (K_SETTLE, 0, 0)]));
     // 21: abandon around the moment an idle retrier wakes up by itself (auto-retry 3 s; the manager starts it one polling period later)
-    for ms in [600, 1100, 1600, 2100, 2600, 3100] {
+    for ms in [4300, 4700, 5000, 5300, 5700] {
         v.push(fam(21, 1, (2, 3, 1), vec![(K_REG, 0, R_GOOD), (K_UP, 0, 0), (K_REV, 0, 0), (K_SETTLE, 0, 0), (K_SLEEP, ms, 0), (K_ABANDON, 0, 0), (K_SLEEP, 1500, 0), (K_SETTLE, 0, 0)]));
     }
     v
